@@ -599,6 +599,8 @@ func (jp *jobProvider) truncateJob(job *Job) {
 	job.ignoreEventsLE = job.lastEventSeq
 
 	job.seek(0, io.SeekStart, "truncation")
+	// the held-back unterminated tail belongs to the content that is gone
+	job.tail = job.tail[:0]
 
 	for _, strOff := range job.offsets {
 		job.offsets.Set(strOff.Stream, 0)
